@@ -59,6 +59,9 @@ claimed = {
  "C18": dict(design="5/C18",
    text="Bounded symbolic model checking of the configuration loader against a reference validity predicate over the stated configuration space (sets, ids, algorithms, keys, costs, defaults, unknown keys, malformed document), of every accepted parameter set at the edge values (never a panic), and of reload through the real agent (SIGHUP delivered to the registered channel): the agent switches to the complete new configuration iff it loads and its directory passes the check, otherwise the complete previous configuration keeps serving.",
    note="Trusted: yaml.v3 modelled as a document tree mapped through the struct tags of the loaded source with KnownFields honoured; argon2/scrypt panic/error conditions as in their sources; one reload."),
+ "C19": dict(design="5/C19",
+   text="Bounded symbolic model checking of the hook machinery: runAllHooks on a directory with symbolic mode bits and 1..2 entries (names, kinds, symbolic modes) starts exactly the eligible hooks with the single argument 'update' and WHAWTY_AUTH_STORE set; the real notify/timer loop (HooksCaller.run under the cooperative scheduler, virtual timers) on every sequence of 2..4 notification / expiry / racing events never leaves a change un-notified and never runs more than the leading round without an expiry nor more than two rounds per interval; a hanging hook is killed by its waiter goroutine when its timer fires while the caller returned at once; add/update/set-admin notify iff they succeeded, remove always, logins never.",
+   note="Trusted: os/exec recorder and virtual time.Timer models; symbolic file modes in the vfs. The timer units are symbolic only (their assertions are model-level); the eligibility unit replays natively with real scripts."),
 }
 NA_DEFAULT = "check not built yet (framework under construction); see DESIGN.md section 5 for the plan"
 na_reason = {}
